@@ -145,6 +145,37 @@ class Relay(recorded.Module):
     def label_sig(self, label, detail):
         return label
 
+    # labels a missed deadline of a healthy party produces (the shortened request / registration timeouts of the
+    # fault and registration sessions are 300 / 400 ms)
+    TIMING = {"C07-healthy-plugin-dropped", "C07-latency", "C17-wellformed-not-activated",
+              "C17-registration-latency", "C08-registration-stuck"}
+
+    def timing_sensitive(self, r):
+        return r["label"] in self.TIMING and r["trace"] in ("faults", "regs") and r["scn"] >= 1
+
+    def confirm_many(self, tname, keys, exe, sc):
+        src = self.fault_file if tname == "faults" else self.reg_file
+        lines = open(src).read().splitlines()
+        scns = sorted(set(k[0] for k in keys if k[0] <= len(lines)))
+        alive = set(k for k in keys if k[0] <= len(lines))
+        for rnd in range(2):
+            if not alive:
+                break
+            d = sc.sub("confirm-%s-%d" % (tname, rnd))
+            one = os.path.join(d, "again.ndjson")
+            with open(one, "w") as f:
+                f.write("\n".join(lines[n - 1] for n in scns) + "\n")
+            out = os.path.join(d, "trace.ndjson")
+            vlib.run_driver(exe, [tname, "-in", one, "-seed", 1000 + rnd, "-out", out], timeout=1800)
+            stats, bad, n = vlib.validate_trace(os.path.join(d, "tlc"), self.name, out, inv_labels=self.inv_labels)
+            seen = set()
+            for b in bad:
+                if 1 <= b["scn"] <= len(scns):
+                    for lab in b["labels"]:
+                        seen.add((scns[b["scn"] - 1], lab))
+            alive &= seen
+        return alive | set(k for k in keys if k[0] > len(lines))
+
     def rule(self):
         return ("one recorded run = plugins with random indices (duplicates provoked) and masks registering and leaving "
                 "at random times while runtime goroutines issue random requests of all 13 kinds (creations inside sync "
